@@ -22,6 +22,340 @@ theorem toPropertyDescriptor_refines (d : DescArg) :
       simp [OttoVerif.C07.toPropertyDescriptor, Spec.toPropertyDescriptor, gsSlot, gsField, setTrit, absDesc,
         topt, slotField, tset]
 
+/-! ## [[DefineOwnProperty]] (§8.12.9), one property -/
+
+/-- the single-property refinement statement -/
+def PropGoal (prop d : MProp) : Prop :=
+  devG prop d = false → devA2D prop d = false →
+   (defineProp prop d).map (fun r => absProp (r.getD prop))
+   = (sDefineProp (absProp prop) (absDesc d)).map (fun r => r.getD (absProp prop))
+
+macro "unfold_model" : tactic => `(tactic|
+  simp only [PropGoal, devG, devA2D, defineProp, defineSwitch, MProp.isEmpty, MProp.isGenericDescriptor, MProp.isDataDescriptor,
+    MProp.isAccessorDescriptor, writable_eq, writeSet_eq, enumerable_eq, enumerateSet_eq, configurable_eq, mode222_eq, mergeMode_eq])
+
+theorem fieldSame_none {α} [DecidableEq α] (c : Option α) : fieldSame none c = true := rfl
+theorem fieldSame_some_none {α} [DecidableEq α] (x : α) : fieldSame (some x) none = false := by
+  simp [fieldSame]
+theorem fieldSame_some_some {α} [DecidableEq α] (x y : α) : fieldSame (some x) (some y) = decide (y = x) := by
+  simp [fieldSame]; rfl
+
+macro "unfold_spec" : tactic => `(tactic|
+  simp only [sDefineProp, absProp, absDesc, allAbsent, subsumed, fieldSame_none, fieldSame_some_none, fieldSame_some_some, ofProp, validate, applyFields,
+     Spec.isGenericDescriptor, Spec.isDataDescriptor, Spec.isAccessorDescriptor, SProp.configurable, SProp.enumerable, SProp.isData,
+     Option.isSome, Option.isNone, Option.getD, slotField, slotFn, normSlot])
+
+macro "trits" : tactic => `(tactic|
+  (intro h1 h2 <;> first | rfl | exact Bool.noConfusion h1 | exact Bool.noConfusion h2))
+
+theorem neqForms {α} [DecidableEq α] {a b : α} (h : a ≠ b) :
+   (a != b) = true ∧ (b != a) = true ∧ (a == b) = false ∧ (b == a) = false ∧
+   decide (a = b) = false ∧ decide (b = a) = false ∧ (some a != some b) = true ∧ (some b != some a) = true := by
+  have h' : b ≠ a := fun e => h e.symm
+  simp [h, h']
+
+
+set_option maxHeartbeats 2000000 in
+theorem caseVN (pv : Val) (pw pe pc dw de dc : Trit) : PropGoal ⟨.val pv, ⟨pw,pe,pc⟩⟩ ⟨.nil, ⟨dw,de,dc⟩⟩ := by
+  unfold_model
+  unfold_spec
+  cases pw <;> cases pe <;> cases pc <;> cases dw <;> cases de <;> cases dc <;> trits
+
+set_option maxHeartbeats 4000000 in
+theorem caseVV (pv dv : Val) (pw pe pc dw de dc : Trit) : PropGoal ⟨.val pv, ⟨pw,pe,pc⟩⟩ ⟨.val dv, ⟨dw,de,dc⟩⟩ := by
+  unfold_model
+  unfold_spec
+  by_cases hv : dv = pv
+  · subst hv
+    try simp only [bne_self_eq_false, beq_self_eq_true, eq_self, decide_true]
+    cases pw <;> cases pe <;> cases pc <;> cases dw <;> cases de <;> cases dc <;> trits
+  · obtain ⟨e1, e2, e3, e4, e5, e6, e7, e8⟩ := neqForms hv
+    try simp only [e1, e2, e3, e4, e5, e6, e7, e8]
+    cases pw <;> cases pe <;> cases pc <;> cases dw <;> cases de <;> cases dc <;> trits
+
+set_option maxHeartbeats 2000000 in
+theorem caseGN (pg ps : Slot) (hg : pg ≠ .nilObj) (hs : ps ≠ .nilObj) (pe pc dw de dc : Trit) :
+    PropGoal ⟨.gs pg ps, ⟨.unset,pe,pc⟩⟩ ⟨.nil, ⟨dw,de,dc⟩⟩ := by
+  unfold_model
+  unfold_spec
+  cases pg <;> cases ps <;> first | exact absurd rfl hg | exact absurd rfl hs |
+   (cases pe <;> cases pc <;> cases dw <;> cases de <;> cases dc <;> trits)
+
+set_option maxHeartbeats 2000000 in
+theorem caseGV (pg ps : Slot) (hg : pg ≠ .nilObj) (hs : ps ≠ .nilObj) (dv : Val) (pe pc dw de dc : Trit) :
+    PropGoal ⟨.gs pg ps, ⟨.unset,pe,pc⟩⟩ ⟨.val dv, ⟨dw,de,dc⟩⟩ := by
+  unfold_model
+  unfold_spec
+  cases pg <;> cases ps <;> first | exact absurd rfl hg | exact absurd rfl hs |
+   (cases pe <;> cases pc <;> cases dw <;> cases de <;> cases dc <;> trits)
+
+set_option maxHeartbeats 4000000 in
+theorem caseVG (pv : Val) (dg ds : Slot) (hd : dg ≠ .nil ∨ ds ≠ .nil) (pw pe pc de dc : Trit) :
+    PropGoal ⟨.val pv, ⟨pw,pe,pc⟩⟩ ⟨.gs dg ds, ⟨.unset,de,dc⟩⟩ := by
+  unfold_model
+  unfold_spec
+  try simp only [bne_self_eq_false, beq_self_eq_true, eq_self, decide_true]
+  cases dg <;> cases ds <;> first | (exfalso; exact hd.elim (fun h => h rfl) (fun h => h rfl)) |
+   (cases pw <;> cases pe <;> cases pc <;> cases de <;> cases dc <;> trits)
+
+theorem slotNeq {k1 k2 : Fn} (h : k1 ≠ k2) :
+    (Slot.fn k1 != Slot.fn k2) = true ∧ (Slot.fn k2 != Slot.fn k1) = true ∧
+    (Slot.fn k1 == Slot.fn k2) = false ∧ (Slot.fn k2 == Slot.fn k1) = false ∧
+    ((some k1 : Option Fn) != some k2) = true ∧ ((some k2 : Option Fn) != some k1) = true ∧
+    decide ((some k1 : Option Fn) = some k2) = false ∧ decide ((some k2 : Option Fn) = some k1) = false := by
+  have h' : k2 ≠ k1 := fun e => h e.symm
+  simp [h, h']
+
+
+def pslot : Option Fn → Slot
+  | none => .nil
+  | some k => .fn k
+
+def dslot : Option (Option Fn) → Slot
+  | none => .nil
+  | some none => .nilObj
+  | some (some k) => .fn k
+
+set_option hygiene false in
+macro "fin4" : tactic => `(tactic|
+  ((try simp only [bne_self_eq_false, beq_self_eq_true, eq_self, decide_true]) <;>
+   cases pe <;> cases pc <;> cases de <;> cases dc <;> trits))
+
+macro "atom" h:ident : tactic => `(tactic|
+  first
+  | subst $h
+  | (obtain ⟨e1, e2, e3, e4, e5, e6, e7, e8⟩ := slotNeq $h
+     try simp only [e1, e2, e3, e4, e5, e6, e7, e8]))
+
+set_option maxHeartbeats 16000000 in
+theorem caseGG (a b : Option Fn) (x y : Option (Option Fn)) (hd : dslot x ≠ .nil ∨ dslot y ≠ .nil) (pe pc de dc : Trit) :
+    PropGoal ⟨.gs (pslot a) (pslot b), ⟨.unset,pe,pc⟩⟩ ⟨.gs (dslot x) (dslot y), ⟨.unset,de,dc⟩⟩ := by
+  rcases a with _ | k1 <;> rcases b with _ | k2 <;> rcases x with _ | _ | k3 <;> rcases y with _ | _ | k4 <;>
+    simp only [pslot, dslot] at hd ⊢ <;>
+    first
+    | (exfalso; exact hd.elim (fun h => h rfl) (fun h => h rfl))
+    | (unfold_model
+       unfold_spec
+       try simp only [reduceCtorEq, ↓reduceIte]
+       first
+       | (by_cases h13 : k1 = k3 <;> by_cases h24 : k2 = k4 <;> atom h13 <;> atom h24 <;> fin4)
+       | (by_cases h13 : k1 = k3 <;> atom h13 <;> fin4)
+       | (by_cases h24 : k2 = k4 <;> atom h24 <;> fin4)
+       | fin4)
+
+theorem pslot_slotFn {g : Slot} (h : g ≠ .nilObj) : pslot (slotFn g) = g := by
+  cases g <;> first | rfl | exact absurd rfl h
+
+theorem dslot_slotField (g : Slot) : dslot (slotField g) = g := by cases g <;> rfl
+
+/-- **[[DefineOwnProperty]] on an existing property** (object_class.go:337-441 vs §8.12.9 steps 5-13):
+    for EVERY well-formed stored property and EVERY descriptor `toPropertyDescriptor` can produce,
+    outside the two single-property deviation regions otto rejects exactly when ES5 rejects and
+    the property written has exactly the ES5 attributes. -/
+theorem defineProp_refines (prop d : MProp) (hp : WFProp prop) (hd : WFDesc d) : PropGoal prop d := by
+  obtain ⟨pval, ⟨pw, pe, pc⟩⟩ := prop
+  obtain ⟨dval, ⟨dw, de, dc⟩⟩ := d
+  cases pval with
+  | nil => exact hp.elim
+  | val pv =>
+    cases dval with
+    | nil => exact caseVN pv pw pe pc dw de dc
+    | val dv => exact caseVV pv dv pw pe pc dw de dc
+    | gs dg ds =>
+      obtain ⟨hw, hne⟩ := hd
+      simp only at hw
+      subst hw
+      exact caseVG pv dg ds hne pw pe pc de dc
+  | gs pg ps =>
+    obtain ⟨hg, hs, hw⟩ := hp
+    simp only at hw
+    subst hw
+    cases dval with
+    | nil => exact caseGN pg ps hg hs pe pc dw de dc
+    | val dv => exact caseGV pg ps hg hs dv pe pc dw de dc
+    | gs dg ds =>
+      obtain ⟨hw, hne⟩ := hd
+      simp only at hw
+      subst hw
+      have := caseGG (slotFn pg) (slotFn ps) (slotField dg) (slotField ds)
+        (by rw [dslot_slotField, dslot_slotField]; exact hne) pe pc de dc
+      rw [pslot_slotFn hg, pslot_slotFn hs, dslot_slotField, dslot_slotField] at this
+      exact this
+
+/-! ## lifting to objects -/
+
+theorem alookup_absProps (n : Name) (l : List (Name × MProp)) :
+    alookup n (absProps l) = (alookup n l).map absProp := by
+  induction l with
+  | nil => rfl
+  | cons kp t ih =>
+    obtain ⟨k, p⟩ := kp
+    simp only [absProps, List.map, alookup] at ih ⊢
+    split <;> simp_all
+
+theorem absProps_aupsert (n : Name) (p : MProp) (l : List (Name × MProp)) :
+    absProps (aupsert n p l) = aupsert n (absProp p) (absProps l) := by
+  induction l with
+  | nil => rfl
+  | cons kp t ih =>
+    obtain ⟨k, q⟩ := kp
+    simp only [absProps, List.map, aupsert] at ih ⊢
+    split <;> simp_all
+
+theorem aupsert_self {α} (n : Name) (x : α) (l : List (Name × α)) (h : alookup n l = some x) :
+    aupsert n x l = l := by
+  induction l with
+  | nil => simp [alookup] at h
+  | cons kp t ih =>
+    obtain ⟨k, q⟩ := kp
+    simp only [alookup] at h
+    simp only [aupsert]
+    split
+    · rename_i hk; simp [hk] at h; simp [h]
+    · rename_i hk; simp [hk] at h; simp [ih h]
+
+/-- every stored property of the object is well formed -/
+def WFObj (o : MObj) : Prop := ∀ n p, alookup n o.props = some p → WFProp p
+
+theorem createProp_refines (d : MProp) (hd : WFDesc d) : absProp (createProp d) = sCreateProp (absDesc d) := by
+  obtain ⟨dval, ⟨dw, de, dc⟩⟩ := d
+  cases dval with
+  | nil => cases dw <;> cases de <;> cases dc <;> rfl
+  | val v => cases dw <;> cases de <;> cases dc <;> rfl
+  | gs g s =>
+    obtain ⟨hw, hne⟩ := hd
+    simp only at hw
+    subst hw
+    cases g <;> cases s <;> first | (exfalso; exact hne.elim (fun h => h rfl) (fun h => h rfl)) |
+      (cases de <;> cases dc <;> rfl)
+
+/-- **[[DefineOwnProperty]] refines §8.12.9** for every object, name and descriptor: same
+    accept/reject and the abstraction of the resulting object is the ES5 result, outside
+    `Dev_generic_loses_writable` and `Dev_acc_to_data_keeps_accessor`. -/
+theorem defineOwnProperty_refines (o : MObj) (n : Name) (d : MProp) (ho : WFObj o) (hd : WFDesc d)
+    (h1 : devGenericAt o n d = false) (h2 : devAccToDataAt o n d = false) :
+    (defineOwn o n d).map absObj = Spec.defineOwn (absObj o) n (absDesc d) := by
+  obtain ⟨proto, ext, props⟩ := o
+  rw [sDefineOwn_eq]
+  simp only [devGenericAt, devAccToDataAt] at h1 h2
+  rw [defineOwn_eq] at h1 h2 ⊢
+  simp only [absObj, alookup_absProps]
+  cases hl : alookup n props with
+  | none =>
+    simp only [Option.map]
+    cases ext <;> simp [absObj, absProps_aupsert, createProp_refines d hd]
+  | some prop =>
+    rw [hl] at h1 h2
+    simp only [Option.isSome_map] at h1 h2
+    have hg := defineProp_refines prop d (ho n prop hl) hd h1 h2
+    simp only [Option.map_some]
+    have hl' : alookup n (absProps props) = some (absProp prop) := by rw [alookup_absProps, hl]; rfl
+    cases hm : defineProp prop d with
+    | none =>
+      rw [hm] at hg
+      cases hs : sDefineProp (absProp prop) (absDesc d) with
+      | none => rfl
+      | some r' => rw [hs] at hg; simp at hg
+    | some r =>
+      rw [hm] at hg
+      cases hs : sDefineProp (absProp prop) (absDesc d) with
+      | none => rw [hs] at hg; simp at hg
+      | some r' =>
+        rw [hs] at hg
+        simp only [Option.map_some, Option.some.injEq] at hg ⊢
+        cases r with
+        | none =>
+          cases r' with
+          | none => rfl
+          | some v =>
+            simp only [Option.getD] at hg
+            subst hg
+            simp only [absObj, aupsert_self _ _ _ hl']
+        | some p =>
+          cases r' with
+          | none =>
+            simp only [Option.getD] at hg
+            simp only [absObj, absProps_aupsert, hg, aupsert_self _ _ _ hl']
+          | some v =>
+            simp only [Option.getD] at hg
+            simp only [absObj, absProps_aupsert, hg]
+
+/-! ## whole steps -/
+
+
+/-- every descriptor `toPropertyDescriptor` returns is well formed -/
+theorem toPropertyDescriptor_wf (d : DescArg) (m : MProp) (h : OttoVerif.C07.toPropertyDescriptor d = some m) : WFDesc m := by
+  cases d with
+  | nonobj => simp [OttoVerif.C07.toPropertyDescriptor] at h
+  | obj d =>
+    obtain ⟨e, c, w, v, g, s⟩ := d
+    revert h
+    cases g <;> cases s <;> cases v <;>
+      rcases w with _ | _ | _ <;> rcases e with _ | _ | _ <;> rcases c with _ | _ | _ <;>
+      simp [OttoVerif.C07.toPropertyDescriptor, gsSlot, setTrit, tset] <;> intro h <;> subst h <;> simp [WFDesc]
+
+/-- every object of the heap holds only well-formed properties -/
+def WFHeap (h : MHeap) : Prop := ∀ (a : Nat) (o : MObj), h[a]? = some o → WFObj o
+
+/-- **Object.defineProperty as a whole step** (builtin_object.go:117 vs §15.2.3.6): from any
+    well-formed heap, outside the two single-property deviation regions, otto's step and the ES5
+    step agree on the outcome (ok / TypeError) and the abstraction of otto's heap is the ES5 heap. -/
+theorem step_defineProperty_refines (h : MHeap) (a : Addr) (n : Name) (d : DescArg) (hw : WFHeap h)
+    (hdev : ∀ o desc, h[a]? = some o → OttoVerif.C07.toPropertyDescriptor d = some desc →
+      devGenericAt o n desc = false ∧ devAccToDataAt o n desc = false) :
+    absHeap (step h (.defn a n d)).1 = (Spec.step (absHeap h) (.defn a n d)).1 ∧
+    (step h (.defn a n d)).2 = (Spec.step (absHeap h) (.defn a n d)).2 := by
+  have hget : (absHeap h)[a]? = (h[a]?).map absObj := by simp [absHeap]
+  simp only [step, Spec.step, hget]
+  cases ho : h[a]? with
+  | none => simp
+  | some o =>
+    have hpd := toPropertyDescriptor_refines d
+    cases hd : OttoVerif.C07.toPropertyDescriptor d with
+    | none => rw [hd] at hpd; simp only [Option.map_none] at hpd; simp [← hpd]
+    | some desc =>
+      rw [hd] at hpd
+      simp only [Option.map_some] at hpd
+      obtain ⟨h1, h2⟩ := hdev o desc ho hd
+      have hr := defineOwnProperty_refines o n desc (hw a o ho) (toPropertyDescriptor_wf d desc hd) h1 h2
+      simp only [Option.map_some, ← hpd]
+      cases hm : defineOwn o n desc with
+      | none => rw [hm] at hr; simp only [Option.map_none] at hr; simp [← hr]
+      | some o' =>
+        rw [hm] at hr
+        simp only [Option.map_some] at hr
+        simp [← hr, absHeap, List.map_set]
+
+/-! ## Non-vacuity of the hypotheses -/
+
+/-- a heap with a data and an accessor property … -/
+def hNV : MHeap := [⟨none, true, [(0, ⟨.val 4, ⟨.on, .on, .on⟩⟩), (1, ⟨.gs (.fn 0) .nil, ⟨.unset, .unset, .on⟩⟩)]⟩]
+
+/-- … is reachable by a history, -/
+example : (step (step (step [] (.create none [])).1 (.put false 0 0 4)).1
+    (.defn 0 1 (.obj ⟨none, some true, none, none, .fn 0, .absent⟩))).1 = hNV := by decide
+
+/-- is well formed, -/
+example : WFHeap hNV := by
+  intro a o h
+  cases a with
+  | zero =>
+    simp [hNV] at h
+    subst h
+    intro n p hp
+    simp only [alookup] at hp
+    split at hp
+    · cases hp; trivial
+    · split at hp
+      · cases hp; exact ⟨by decide, by decide, rfl⟩
+      · cases hp
+  | succ a => simp [hNV] at h
+
+/-- and a defineProperty step on it lies outside every region: the hypotheses of
+    `step_defineProperty_refines` are met by a non-trivial instance. -/
+example : devStep hNV (.defn 0 0 (.obj ⟨some false, none, some false, some 5, .absent, .absent⟩))
+    (step hNV (.defn 0 0 (.obj ⟨some false, none, some false, some 5, .absent, .absent⟩))).1 = [] := by decide
+
 /-! ## Deviation witnesses (each region really deviates; kernel-checked, replayed on the real code) -/
 
 def dE : Desc := ⟨none, none, none, none, .absent, .absent⟩
